@@ -147,6 +147,10 @@ class Resolver:
                 return mk([BUILTIN])
             if fn.id in f.params:
                 return mk([EXTERNAL_USER])
+            # a local name bound only to bound methods of the instance (m = self.meth; m(...))
+            al = self._local_alias(f, fn.id, selfname, clsq)
+            if al:
+                return mk(al)
             return mk([UNKNOWN])
         if isinstance(fn, ast.Attribute):
             base = fn.value
@@ -204,6 +208,25 @@ class Resolver:
             if tg:
                 return mk(tg)
         return mk([UNKNOWN])
+
+    def _local_alias(self, f: FuncInfo, name: str, selfname, clsq):
+        """Targets of a local name every binding of which is `name = self.<method>`; None when it is bound in any other way."""
+        if not (selfname and clsq):
+            return None
+        out = []
+        for n in walk_no_nested(f.node):
+            if isinstance(n, ast.Name) and n.id == name and isinstance(n.ctx, (ast.Store, ast.Del)):
+                par = self.repo.parent(n)
+                if not (isinstance(par, ast.Assign) and len(par.targets) == 1 and par.targets[0] is n):
+                    return None
+                v = par.value
+                if not (isinstance(v, ast.Attribute) and isinstance(v.value, ast.Name) and v.value.id == selfname):
+                    return None
+                m = self.method(clsq, v.attr)
+                if m is None or m.is_property:
+                    return None
+                out.append(m.qualname)
+        return sorted(set(out)) or None
 
     def _dispatch_names(self, f: FuncInfo, arg) -> set:
         """Strings the name argument of getattr(self, <arg>) may take: a constant, or any string constant of the module-level
